@@ -441,13 +441,25 @@ func runC14Use(c *Ctx) {
 			c.anchorMissing(pr.fn)
 			continue
 		}
+		// the function and the helpers on the same receiver it delegates to (a check split into per-table methods)
+		scope := []*ssa.Function{fn}
+		for _, h := range p.withHelpers(fn, 1) {
+			if h != fn && h.Signature.Recv() != nil && fn.Signature.Recv() != nil && typeStr(h.Signature.Recv().Type()) == typeStr(fn.Signature.Recv().Type()) {
+				scope = append(scope, h)
+			}
+		}
+		eachInstrH := func(visit func(b *ssa.BasicBlock, i int, in ssa.Instruction)) {
+			for _, f := range scope {
+				eachInstr(f, visit)
+			}
+		}
 		// (a) undefined: a diagnostic inside the loop over the call site's table, controlled by a failed lookup in the declared table
 		undefOK, undefWhy := false, "no diagnostic is control-dependent on a failed lookup of the call site's "+pr.what+" in "+pr.decl
 		var undefPos token.Pos = fn.Pos()
 		// (b) missing: an append controlled by Required and a failed lookup in the call site's table
 		missOK, missWhy := false, "no collection of missing "+pr.what+"s is control-dependent on `Required` and a failed lookup in "+pr.call
 		var missPos token.Pos = fn.Pos()
-		eachInstr(fn, func(b *ssa.BasicBlock, _ int, in ssa.Instruction) {
+		eachInstrH(func(b *ssa.BasicBlock, _ int, in ssa.Instruction) {
 			isDiag := emitsDiag(in)
 			isAppend := false
 			if call, ok := in.(*ssa.Call); ok {
@@ -538,7 +550,7 @@ func runC14Use(c *Ctx) {
 		}
 		// (c) every collected name is reported: the loop over the collection reports unconditionally
 		reportedAll := false
-		eachInstr(fn, func(b *ssa.BasicBlock, _ int, in ssa.Instruction) {
+		eachInstrH(func(b *ssa.BasicBlock, _ int, in ssa.Instruction) {
 			if !emitsDiag(in) {
 				return
 			}
